@@ -338,6 +338,12 @@ def observe(case, limit_s=20.0):
                     except Exception as e2:  # the AST is so broken it cannot be dumped
                         dump = "<undumpable: %r>" % (e2,)
                     return dict(status="violation", bucket=bucket, detail=dict(stage="compile()", raised=type(e).__name__, message=str(e)[:300], ast=dump))
+                # constraints of Python's grammar that CPython's AST validator does not check (the interpreter may crash on them)
+                for node in ast.walk(tree_ast):
+                    if isinstance(node, getattr(ast, "TryStar", ())) and any(h.type is None for h in node.handlers):
+                        return dict(status="violation", bucket="ast-invalid:except*-handler-without-exception-type",
+                                    detail=dict(stage="grammar", message="Python requires `except*` to name one or more exception types; "
+                                                "CPython 3.12 dies (segmentation fault) when such a handler is reached", ast=ast.dump(node)[:400]))
                 try:
                     data = marshal.dumps(code)
                     marshal.loads(data)
